@@ -9,6 +9,7 @@ import AslModel.BrokerQ
 import AslModel.Crash
 import Proofs.C03
 import Proofs.Lemmas.CrashSeq
+import Proofs.Lemmas.CrashSeqF1
 namespace Asl.C04
 open Asl
 
@@ -184,9 +185,48 @@ theorem engine_quirks_get_stuck :
     stuckAfter Quirks.engine (tasks 1) schedF1 = some true ∧ stuckAfter Quirks.engine par2 schedF2 = some true ∧
     stuckAfter Quirks.engine nested schedF4 = some true := by decide +kernel
 
+/-! ### (iii) a quirk only hurts in its window
+
+With `requestFromTimer` (C04-F1) on, the window is: *some Task event has been delivered and its request is
+not sent yet* — formally `inWindow c`: a deferred handler is armed for an event whose correlation id is not
+among the requests sent.  Crashes anywhere else, any number of them, still let a sequence of Task visits
+complete with every request sent exactly once. -/
+
+open Asl.Crash in
+theorem quirks_only_hurt_at_their_window (N : Nat) (ops : List Op) (c : Cfg)
+    (hr : runW qF1 (init (tasks N)) ops = some c) :
+    ∃ nextId sent running, drain qF1 (mu1 c) c = cfgEnd nextId sent running ∧ sent.Nodup ∧ sent.length = N ∧
+      observe (drain qF1 (mu1 c) c) =
+        { terminal := true, notes := 1, resent := [], pendingUnsent := [], pendingLost := [], quiet := true } := by
+  have hi := inv1_run (N := N) _ c ops (inv1_init N) hr
+  obtain ⟨nextId, sent, running, hd, hnd, hlen⟩ := drain1_ends (N := N) (mu1 c) c hi (Nat.le_refl _)
+  exact ⟨nextId, sent, running, hd, hnd, hlen, by rw [hd]; exact observe_ended nextId sent running hnd⟩
+
+open Asl.Crash Witness in
+/-- the window is exactly where the witness of (ii) crashes, and a crash one operation later (the request is out)
+is harmless: `runW` refuses the first schedule and accepts the second -/
+theorem window_is_tight :
+    runW qF1 (init (tasks 1)) [.ev 0, .crash] = none ∧
+    (runW qF1 (init (tasks 1)) [.ev 0, .tm 0, .crash]).isSome = true ∧
+    (run qF1 (init (tasks 1)) [nc (.ev 0)]).map inWindow = some true := by decide +kernel
+
 /-! non-vacuity -/
 example : ((BQ.run [.publish 1, .publish 2, .deliver, .deliver, .ack 1, .publish 3]).step .crash).ready
     = [{ id := 2, redelivered := true }, { id := 3 }] := by decide
 example : stepOrdered [.deliver 1, .pub, .pub, .ack 1] = true := by decide
+
+/-- hypothesis of `crash_safe_task_sequences`: a schedule of three Task visits with two crashes that is executable -/
+example : (Asl.Crash.run Asl.Crash.Quirks.none (Asl.Crash.init (Asl.Crash.tasks 3))
+    ([Asl.Crash.Op.ev 0, .crash, .ev 0, .rp 0, .ev 1, .crash, .rp 1, .ev 1, .tick].map (fun o => (o, none)))).isSome = true := by
+  decide +kernel
+/-- … and of `quirks_only_hurt_at_their_window`: crashes outside the window -/
+example : (Asl.Crash.runW Asl.Crash.qF1 (Asl.Crash.init (Asl.Crash.tasks 2))
+    [.ev 0, .tm 0, .crash, .rp 0, .ev 0, .tm 0, .tick, .crash, .ev 1]).isSome = true := by decide +kernel
+/-- the crash-safe protocol on the fan-out witnesses: the reply is held by the join / the nested join's events by the
+enclosing one, and the runs complete with every request sent once -/
+example : (Asl.Crash.run Asl.Crash.Quirks.none (Asl.Crash.init Witness.par2) Witness.schedF2).map
+    (fun c => Asl.Crash.observe (Asl.Crash.drain Asl.Crash.Quirks.none 200 c)) =
+    some { terminal := true, notes := 1, resent := [], pendingUnsent := [], pendingLost := [], quiet := true } := by
+  decide +kernel
 
 end Asl.C04
